@@ -142,6 +142,16 @@ def generate(problems):
     asc = _find(cls, ast.FunctionDef, "add_subcommand")
     add_sub = [_u(s) for s in asc.body if isinstance(s, (ast.Assign, ast.If)) and ("parser." in _u(s) or "raise" in _u(s))]
 
+    # ------------------------------------------------------------------ default_env setter: propagation down the tree
+    de_prop = []
+    for fn in ast.walk(tc):
+        if isinstance(fn, ast.FunctionDef) and fn.name == "default_env" and any("setter" in _u(d) for d in fn.decorator_list):
+            for st in fn.body:
+                if isinstance(st, ast.If) and "_subcommands_action" in _u(st.test):
+                    de_prop = [_u(st.test)] + [_u(x) for x in st.body]
+    if not de_prop:
+        problems.append("subcmd_shape: propagation block of the default_env setter not found")
+
     body = "namespace Jap.Gen.SubcmdShape\n"
     body += "def keysExpr : String := %s\n" % lean_str(keys_expr or "")
     body += "def explicitTest : String := %s\n" % lean_str(explicit_test or "")
@@ -167,5 +177,6 @@ def generate(problems):
     body += "def envBranch : List String := %s\n" % lean_str_list(env_branch)
     body += "def applyLinksHead : List String := %s\n" % lean_str_list(head)
     body += "def addSubcommand : List String := %s\n" % lean_str_list(add_sub)
+    body += "def defaultEnvPropagation : List String := %s\n" % lean_str_list(de_prop)
     body += "end Jap.Gen.SubcmdShape\n"
     write_if_changed("SubcmdShape.lean", body)
